@@ -59,16 +59,20 @@ BoxB(box) == IF IsTric(box) THEN <<box[4], box[2], 0>> ELSE <<0, box[2], 0>>
 BoxC(box) == IF IsTric(box) THEN <<box[5], box[6], box[3]>> ELSE <<0, 0, box[3]>>
 \* Orthorhombic: all images r + (k1 Lx, k2 Ly, k3 Lz) with |k_c| <= floor(|r_c| / L_c) + 1 (the shortest
 \* image of a component lies within one box length of the origin).
-\* Triclinic: the image obtained by reducing z, then y, then x has |v_c| <= L_c/2, so the shortest image
-\* is no longer than Rb = sqrt(ax^2+by^2+cz^2)/2 (rounded up); every image v with |v| <= Rb has
-\* |k3| <= (|r3|+Rb)/cz, |k2| <= (|r2|+Rb+|k3 cy|)/by, |k1| <= (|r1|+Rb+|k2 bx|+|k3 cx|)/ax: the cube
-\* below contains all of them, hence the true minimum over ALL periodic images.
+\* Triclinic: Reduced(r) (reduce z, then y, then x by the nearest multiple of c, b, a) is one of the
+\* images, so the shortest image is no longer than R = |Reduced(r)| (rounded up); every image v with
+\* |v| <= R has |k3| <= (|r3|+R)/cz, |k2| <= (|r2|+R+|k3 cy|)/by, |k1| <= (|r1|+R+|k2 bx|+|k3 cx|)/ax:
+\* the cube below contains all of them, hence the true minimum over ALL periodic images.
 ImgK(r, L, c) == LET m == Abs(r[c]) \div L[c] + 1 IN (-m)..m
+Reduced(r, box) ==
+  LET r1 == VSub(r, VScale(RoundHalfAway(r[3], box[3]), BoxC(box)))
+      r2 == VSub(r1, VScale(RoundHalfAway(r1[2], box[2]), BoxB(box)))
+  IN VSub(r2, VScale(RoundHalfAway(r2[1], box[1]), BoxA(box)))
 TricK(r, box) ==
-  LET Rb == Isqrt(box[1] * box[1] + box[2] * box[2] + box[3] * box[3]) \div 2 + 1
-      m3 == (Abs(r[3]) + Rb) \div box[3] + 1
-      m2 == (Abs(r[2]) + Rb + m3 * Abs(box[6])) \div box[2] + 1
-      m1 == (Abs(r[1]) + Rb + m2 * Abs(box[4]) + m3 * Abs(box[5])) \div box[1] + 1
+  LET R == Isqrt(Norm2(Reduced(r, box))) + 1
+      m3 == (Abs(r[3]) + R) \div box[3] + 1
+      m2 == (Abs(r[2]) + R + m3 * Abs(box[6])) \div box[2] + 1
+      m1 == (Abs(r[1]) + R + m2 * Abs(box[4]) + m3 * Abs(box[5])) \div box[1] + 1
   IN ((-m1)..m1) \X ((-m2)..m2) \X ((-m3)..m3)
 Images(r, L) ==
   IF IsTric(L)
